@@ -109,6 +109,10 @@ func genRTCase(t *rapid.T) (*RTCase, bool) {
 		default:
 			r.Msg, r.HasMsg = genText(t, c14MsgRunes, 2, 10, "m"), true
 		}
+		if r.HasMsg && r.Msg != "" && !strings.Contains(r.Msg, "'") && rapid.IntRange(0, 9).Draw(t, "clauseEnd") == 7 {
+			// a message that ends like a clause of an error text ends (people close their sentences): it is text to the last byte
+			r.Msg += rapid.SampledFrom([]string{"; ", ";", "; ; ", "。", "; x"}).Draw(t, "clauseEndText")
+		}
 		if rapid.IntRange(0, 9).Draw(t, "ruleNameInText") == 4 {
 			// the NAME of another rule inside a value or a message is just text
 			word := rapid.SampledFrom([]string{"required", "exist", "either", "in", "re"}).Draw(t, "word")
